@@ -67,6 +67,11 @@ pub fn last_os_error() -> (r: i32) { unimplemented!() }
 //@item src/mmap/xen.rs :: - :: struct MmapUnix :: pubfields
 //@sub ^struct MmapUnix => pub struct MmapUnix
 //@enditem
+/// `#[derive(Clone)]` of the source (attributes are dropped by the extraction): a field-wise copy.  Note
+/// that a copy of an OWNER is a second owner of the same mapping - whoever clones must not drop both.
+impl Clone for MmapUnix {
+    fn clone(&self) -> (r: Self) ensures r == *self { MmapUnix { addr: self.addr, size: self.size } }
+}
 impl MmapUnix {
     /// the owner invariant: this value holds exactly one whole live mapping (what Drop gives back)
     pub open spec fn owns(&self) -> bool {
@@ -242,7 +247,7 @@ impl MmapXenSlice {
 //@fn src/mmap/xen.rs :: impl Drop for MmapXenSlice :: drop :: tags=C17,C07
 //@spec
     requires old(self).inv(),
-    ensures final(self).unix_mmap is None, // [C17]
+    ensures final(self).unix_mmap is None, // [C17,C12] the slice gives up its mapping: nothing is left to be unmapped a second time
 //@end
 //@endfn
 }
